@@ -11,6 +11,7 @@
  *   Connect <shm|sock> <max_msg_size>     create service + connect one client
  *   Reset                                 tear everything down
  *   CSend <len> | CSendv <len> | CSendvRecv <len> | CRecv | CEvRecv | CFcMax <n>
+ *   CRecvSmall <n> | CEvRecvSmall <n>     receive into a buffer of n bytes (last op of a schedule; r = [returned more than n])
  *   SPoll                                 poll() the connection's registered descriptor with its registered
  *                                         events and run the registered callback with what poll() reports
  *   SForce <revents>                      run the connection's dispatch callback with the given revents (1=IN 4=OUT)
@@ -393,6 +394,16 @@ static void exec_op(struct vt_line *L)
 		long rc = qb_ipcc_recv(cli, rbuf, maxmsg, 0);
 		last_rc = rc;
 		vt_ev(op); vt_res(); vt_i(rc); if (rc > 0) log_msg(rbuf, rc); vt_obs_end();
+	} else if (!strcmp(op, "CRecvSmall") || !strcmp(op, "CEvRecvSmall")) {
+		/* a receive into a buffer of exactly <n> bytes (heap block of that size: ASan sees a byte written past it).  What
+		 * such a call does to the queue when the message does not fit is not stated by the property: the event carries
+		 * no projection, and the schedule ends after it */
+		size_t n = a1 < 1 ? 1 : (size_t)a1;
+		char *b = malloc(n);
+		long rc = op[1] == 'R' ? qb_ipcc_recv(cli, b, n, 0) : qb_ipcc_event_recv(cli, b, n, 0);
+		free(b);
+		last_rc = rc;
+		vt_ev(op); vt_i((long long)n); vt_res(); vt_i(rc > (long)n ? 1 : 0); vt_put("],\"o\":["); vt_first = 1; vt_end();
 	} else if (!strcmp(op, "CEvRecv")) {
 		if ((kf_skip & 1) && is_shm && conn->outstanding_notifiers > 0 && inq(cli->setup.u.us.sock) == 1 &&
 		    svc->funcs.q_len_get(&conn->event) > 1) { last_rc = -1; vt_ev("Skip"); vt_res(); vt_obs_end(); return; }
